@@ -25,6 +25,14 @@ void t2(BVB& a, const BVB& b) { a &= b; a |= b; a ^= b; (void)(a == b); (void)(a
 void t3(BSB& a, const BVB& b) { a &= b; a |= b; a ^= b; (void)(a == b); }
 template <class T> bool r1(T& b) { auto r = b[0]; r = true; r.flip(); r &= true; r |= false; r ^= true; bool x = r; bool y = ~r; return x ^ y; }
 template <class T> bool r2(const T& b) { auto r = b[0]; bool x = r; bool y = ~r; return x ^ y; }
+// free operators returning a temporary: the result owns its storage, the operands (in particular a VIEW's caller memory) are untouched
+namespace xv_unit {
+BS or_vv(const BVB& a, const BVB& b) { return a | b; }
+BS and_vv(const BVB& a, const BVB& b) { return a & b; }
+BS xor_vv(const BVB& a, const BVB& b) { return a ^ b; }
+BS or_ss(const BSB& a, const BSB& b) { return a | b; }
+BS not_v(const BVB& a) { return ~a; }
+}
 template bool r1<BSB>(BSB&); template bool r1<BVB>(BVB&); template bool r2<BSB>(const BSB&); template bool r2<BVB>(const BVB&);
 ''' % dict(t=t)
 
@@ -49,8 +57,18 @@ SKIP = ('initializer_list', )
 def select(fn, q, lw):
     if any(k in fn['type']['qualType'] for k in SKIP) or fn.get('name') in ('get_allocator', 'max_size', 'capacity', 'reserve', 'derived_cast'):
         return False      # listed in the evidence as not under contract
+    if q.startswith('xv_unit::'):
+        return True
     return q.startswith('xtl::xdynamic_bitset_base::') or q.startswith('xtl::xdynamic_bitset::') or \
         q.startswith('xtl::xdynamic_bitset_view::') or q.startswith('xtl::xbitset_reference::')
+
+
+class WUnit(Unit):
+    unit_roots = True
+
+
+def alias(fn, q):
+    return 'w_' + fn.get('name') if q.startswith('xv_unit::') else None
 
 
 def build(tier, workdir, seed):
@@ -59,8 +77,8 @@ def build(tier, workdir, seed):
     for w in ([8] if tier == 'quick' else [8, 16, 32, 64]):
         S = BLK[w].replace(' ', '_')
         pre = '#define XV_W %dul\ntypedef %s xv_blk;\n#define XV_GB (xv_g / XV_W)\n#define XV_FILL_OFF xv_a4\n' % (w, BLK[w])
-        ctext = C03_contracts.generate(S)
-        u = Unit('bitset%d' % w, inst(w), select, ctext, rec_alias(w), defines=['NDEBUG'], pre_defs=pre).lower(workdir)
+        ctext = C03_contracts.generate(S) + C03_contracts.wrappers()
+        u = WUnit('bitset%d' % w, inst(w), select, ctext, rec_alias(w), defines=['NDEBUG'], pre_defs=pre, fn_alias=alias).lower(workdir)
         units.append(u)
         cases = [('r%d' % k, ['XV_CASE_R=%d' % k]) for k in range(w)]
         # the shift proofs are the expensive ones (array theory, ~14 min in one solver process): their obligations are checked
@@ -79,7 +97,7 @@ def build(tier, workdir, seed):
                             'count(): result == sum of per-byte population counts of the block array (ghost accumulator, independent bit-sum formula); with the zero-tail invariant this is the number of set valid bits',
                             'induction over operation histories is the meta-argument: every operation is proved to preserve wf and to realise its abstract counterpart from any wf state'],
             'coverage_extra': {'block_widths': [8] if tier == 'quick' else [8, 16, 32, 64], 'owners': ['xdynamic_bitset (vector)', 'xdynamic_bitset_view (span)'],
-                               'not_reached': ['operator<< / operator>> / operator~ / & | ^ returning temporaries (copy + in-place operation, both under contract separately)',
+                               'not_reached': ['operator<< / operator>> returning temporaries (copy + in-place operation, both under contract separately; | & ^ ~ are under contract through wrappers)',
                                                'initializer_list constructors/assign, block-iterator constructors/assign, swap, reserve/capacity/max_size/get_allocator',
                                                'xbitset_iterator (decided under C12)', 'termination of views in non-NDEBUG builds (span contract checks call std::terminate)']}}
 
@@ -95,6 +113,8 @@ def replay(ctx, job, ob, steps, base):
     op = m.group(2) if m else ''
     if job.enforce:
         op = re.sub(r'^(?:bs|bv|bsb|bvb|bsref|bvref|bscref|bvcref)__', '', job.enforce)
+    if op.startswith('w_'):
+        op = 'w_'       # the free operators | & ^ ~ (wrapper jobs)
     src = open(os.path.join(VERIF, 'props', 'C03_replay.cpp')).read()
     seed = int(os.environ.get('VERIF_SEED', '0') or 0)
     outs = []
